@@ -124,8 +124,17 @@ def _cobj(i):
     def eq(ex, self, other):
         # equality of constraint objects is by operands: an arbitrary relation as far as this contract is concerned
         return ex.fresh('eq.%d' % i, z3.BoolSort())
-    return Obj('Constraint', {'__truthy__': Bool('nonempty.%d' % i)}, {'__eq__': eq, '__ne__': lambda ex, s, o: Not(eq(ex, s, o))},
-               name='operand%d' % i)
+
+    def isa(ex, self, clsname):
+        # the operand may be of any constraint class, a constraint set (union, intersection, ...) included
+        return Bool('operand%d.isinstance.%s' % (i, clsname))
+    return Obj('Constraint', {'__truthy__': Bool('nonempty.%d' % i)},
+               {'__eq__': eq, '__ne__': lambda ex, s, o: Not(eq(ex, s, o)), '__isinstance__': isa}, name='operand%d' % i)
+
+
+from pyvc.core import ClassV as _ClassV
+CLASSES = {n: _ClassV(n) for n in ('AbstractConstraint', 'AbstractConstraintSet', 'ConstraintsIntersection', 'ConstraintsUnion',
+                                   'ConstraintsExclusion', 'SingleValueConstraint', 'ValueRangeConstraint')}
 
 
 def _set_model():
@@ -153,7 +162,7 @@ for n in range(3):
                         ['last_args("self._derive")[0][%d] is value' % n])
     CONTRACTS.append(Contract(
         id='type.constraint::AbstractConstraintSet.__add__[%d]' % n, file=F, qual='AbstractConstraintSet.__add__', properties=P,
-        params=dict(narrows=PBool(), self=PDerived(_cset(n)), value=PConst(NEW)),
+        params=dict(narrows=PBool(), self=PDerived(_cset(n)), value=PConst(NEW)), globals=dict(CLASSES),
         calls={'self._derive': lambda ex, values: _ctor(ex, *values.items)},
         ensures=[('keeps-every-operand-and-appends', same), ('returns-derived', 'result is last_result("self._derive")')],
         note='set + constraint: all %d operands kept in order, the new one appended, even if it compares equal to one '
